@@ -45,7 +45,7 @@ func DefaultWeights() Weights {
 		"recstart": 4, "recend": 5, "logout": 4, "ostart": 2, "oend": 3,
 		"totpsetup": 3, "totpconfirm": 3, "totpremove": 1, "totpvalidate": 5, "totpgetsetup": 1,
 		"smssetup": 3, "smsconfirm": 3, "smsremove": 1, "smsvalidate": 6, "smsgetsetup": 1,
-		"regen": 1, "vstart": 2, "vend": 2, "prot": 5, "open": 1, "lockmw": 1, "confirmmw": 1,
+		"regen": 1, "vstart": 2, "vend": 2, "prot": 5, "open": 1, "lockmw": 1, "confirmmw": 1, "rootmw": 1,
 		"adv": 6, "apilock": 1, "apiunlock": 1, "updpw": 1, "setcookie": 3, "stealcookie": 2,
 	}
 }
@@ -509,7 +509,7 @@ func (g *Gen) Step() {
 			args.RawQuery = pick(g.R, []string{"a=1", "a=1&b=%20c", "q=%2F"})
 		}
 		r = m.HTTP(b, "prot", args, nil)
-	case "open", "lockmw", "confirmmw":
+	case "open", "lockmw", "confirmmw", "rootmw":
 		r = m.HTTP(b, kind, Args{}, nil)
 	case "adv":
 		m.Advance(gaps[g.R.Intn(len(gaps))])
